@@ -422,15 +422,19 @@ pub fn run_marked_remote_and_substr(ops: &[(Op, Fault)], variant: u64) -> Option
     // substring names
     let s0 = Substr { width: 1.0, id: 5, max_x: 2.0, x: 3.0 };
     let sf = Substr { width: 100.0, id: 254, max_x: 200.0, x: -300.0 };
+    let sg = Substr { width: -10.0, id: 77, max_x: 20.0, x: 900.0 };
     let mut anim = StateAnimatorBuilder::new()
         .from_state(Sh::C)
         .from_values(s0.clone())
         .on(
             Sh::A,
+            // (foreign contents in the excluded fields at both ends, and a second cycle, in which
+            // the blended start no longer stands in for the first keyframe)
             Substr::timeline()
                 .duration_seconds(1.5)
+                .repeat(Repeat::Times(1))
                 .keyframe(Substr::keyframe_from(&sf, 0.0))
-                .keyframe(Substr::keyframe_from(&s0, 1.0)),
+                .keyframe(Substr::keyframe_from(&sg, 1.0)),
         )
         .build();
     for (i, (op, _)) in ops.iter().enumerate() {
@@ -481,8 +485,10 @@ pub struct Wording3 {
 pub fn run_wording(ops: &[(Op, Fault)], variant: u64) -> Option<String> {
     let w0 = Wording { id: 42, x: 1.0, y: 2.0, ticks: 1000 };
     let wf = Wording { id: 7, x: 100.0, y: -200.0, ticks: 3 };
+    let wg = Wording { id: 9000, x: -1.0, y: 2.5, ticks: 77 };
     let v0 = Wording3 { x: 1.0, clicks: 99, y: 2.0 };
     let vf = Wording3 { x: -50.0, clicks: 1, y: 75.0 };
+    let vg = Wording3 { x: 5.0, clicks: 640, y: -7.5 };
     let mut anim = StateAnimatorBuilder::new()
         .from_state(Sh::C)
         .from_values(w0.clone())
@@ -492,7 +498,7 @@ pub fn run_wording(ops: &[(Op, Fault)], variant: u64) -> Option<String> {
                 .duration_seconds(1.25)
                 .reverse(variant & 1 == 1)
                 .keyframe(Wording::keyframe_from(&wf, 0.0))
-                .keyframe(Wording::keyframe_from(&w0, 1.0)),
+                .keyframe(Wording::keyframe_from(&wg, 1.0)),
         )
         .on(Sh::B, Wording::timeline().duration_seconds(0.5).keyframe(Wording::keyframe(1.0).x(9.0)))
         .build();
@@ -505,7 +511,7 @@ pub fn run_wording(ops: &[(Op, Fault)], variant: u64) -> Option<String> {
                 .duration_seconds(0.75)
                 .repeat(if variant & 2 == 2 { Repeat::Times(1) } else { Repeat::None })
                 .keyframe(Wording3::keyframe_from(&vf, 0.0))
-                .keyframe(Wording3::keyframe_from(&v0, 1.0)),
+                .keyframe(Wording3::keyframe_from(&vg, 1.0)),
         )
         .build();
     for (i, (op, _)) in ops.iter().enumerate() {
